@@ -7,7 +7,7 @@ from spec import c13 as S
 from checks.C02 import _WS_CTRL
 
 BOUNDS = {
-    "quick": "forward: 10 ancestor/descendant constructions (path extension, subdomain extension under 1-label / 2-label / private suffixes, a second subdomain level, under a bare suffix with a port, query+fragment extension) with two symbolic holes of length 0..2 (segment / label characters); "
+    "quick": "forward: 12 ancestor/descendant constructions (path extension, subdomain extension under 1-label / 2-label / private suffixes, a second subdomain level, under a bare suffix with a port, query+fragment extension) with two symbolic holes of length 0..2 (segment / label characters); "
              "converse: 7 pair skeletons (look-alike hosts such as 'lemonde.fr' vs 'lemonde.fr.<hole>', suffix boundaries, path boundaries, ports, schemes) with holes of length 0..2 over all code points; suffix_aware in {F,T}",
     "thorough": "holes of length 0..3",
 }
@@ -52,6 +52,15 @@ def forward(st, kind, n, m, suffix_aware):
         st.assume(len(ge) > 0, "non-empty label")
         u = cat("http://www.x", h, ".", suf)
         v = cat("http://", g, ".www.x", h, ".", suf, "/p")
+    elif kind in ("inside-suffix", "inside-private-suffix"):
+        # the ancestor's host is only a part of the descendant's public suffix
+        _chars_ok(st, he, LAB_BAD)
+        _chars_ok(st, ge, LAB_BAD)
+        st.assume(len(ge) > 0, "non-empty label")
+        if kind == "inside-suffix":
+            u, v = cat("http://uk"), cat("http://", g, ".x", h, ".co.uk/p")
+        else:
+            u, v = cat("http://fedoraproject.org"), cat("http://", g, ".cloud.fedoraproject.org/p", h)
     elif kind in ("bare-suffix-port", "bare-tld-port"):
         suf = {"bare-suffix-port": "co.uk", "bare-tld-port": "fr"}[kind]
         _chars_ok(st, he, LAB_BAD)
@@ -94,7 +103,7 @@ def items(tier):
     quick = tier == "quick"
     nmax = 2 if quick else 3
     out = []
-    for kind in ("path", "path-slash", "sub-fr", "sub-couk", "sub-github", "sub2-fr", "sub2-couk", "bare-suffix-port", "bare-tld-port", "query"):
+    for kind in ("path", "path-slash", "sub-fr", "sub-couk", "sub-github", "sub2-fr", "sub2-couk", "inside-suffix", "inside-private-suffix", "bare-suffix-port", "bare-tld-port", "query"):
         for n in range(0, nmax + 1):
             for m in range(0, nmax + 1):
                 if quick and n + m > 3:
